@@ -90,8 +90,18 @@ def enum_grid(tier, shard, nshards, rng):
                        route="path" if (n + kind) % 2 else "stream", check_cmac=True)
 
 
+def enum_many(tier, shard, nshards, rng):
+    """CONSTRUCTED: files with more than 255 components (directory entry index beyond one byte), both routes"""
+    for i, n in enumerate([255, 256, 257, 300] if tier == "quick" else [255, 256, 257, 300, 512, 513, 700]):
+        if i % nshards != shard:
+            continue
+        comps = [dict(desc=[(0xC1, bytes([j & 0xFF]))] if j % 2 else [], blob=bytes([(j % 251) + 1]) * (1 + j % 4) + (b"\0" if j % 5 == 0 else b""), actual_len=None, enc=False) for j in range(n)]
+        yield dict(comments=[("n", str(n))], comps=comps, key=bytes(rng.getrandbits(8) for _ in range(16)), route="path" if i % 2 else "stream", check_cmac=True)
+
+
 def parts(tier):
     return [
         Part("roundtrip", check=check, strategy=strat, quick=(16, 400), thorough=(16, 2500)),
+        Part("many_components", check=check, enum=enum_many, quick=(4, 0), thorough=(7, 0)),
         Part("grid", check=check, enum=enum_grid, quick=(8, 0), thorough=(16, 0), exhaustive=True),
     ]
